@@ -500,6 +500,20 @@ def case_iso(ctx, cfg):
             if e0 is not None or e1 is not None or not np.allclose(d0, d1, atol=1e-9):
                 ctx.fail("dist:isometry-invariance", "dist", {"dim": dim, "p": p}, d0, e0 or e1 or d1)
                 return
+        if dim == 3:
+            V3 = [(0, 0, 1), (2, 0, 1), (2, 2, 1), (0, 2, 1)]
+            Pg = G.Polygon(*[P(G, v) for v in V3])
+            Sg = G.Segment(P(G, (0, 0, 0)), P(G, (2, 1, 2)))
+            qs = [(1, 1, 3), (3, 1, 1), (0, 0, 0), (1, 1, 1), (-1, 2, 4)]
+            for q in qs:
+                for obj, tag in ((Pg, "polygon"), (Sg, "segment")):
+                    d_before, e0 = ctx.call(G.dist, P(G, q), obj)
+                    d_img, e1 = ctx.call(lambda: G.dist(t * P(G, q), t * obj))
+                    d_after, e2 = ctx.call(G.dist, P(G, q), obj)
+                    ctx.trace(3)
+                    if e0 or e1 or e2 or not close(d_before, d_img, 1e-8) or not close(d_before, d_after, 1e-9):
+                        ctx.fail(f"dist:isometry-invariance:{tag}", "dist", {"q": q, "object": tag}, d_before, e0 or e1 or e2 or [d_img, d_after])
+                        return
         if dim == 2:
             others = [q for q in pts if q != (0, 0)]
             B = G.PointCollection(np.array([list(q) + [1] for q in others], dtype=float))
